@@ -10,9 +10,10 @@
 (*                                                                         *)
 (* Strict = TRUE : every event must be the corresponding step of the        *)
 (*   algorithm transcription (with the plumbing variant Impl of the cfg).   *)
-(* Strict = FALSE: events are loaded as they are; TLC evaluates every       *)
-(*   clause of the requirement on the final state and prints the verdict    *)
-(*   {tid, failed clauses} -- this run decides violations.                  *)
+(* Strict = FALSE: events are loaded as they are (in any order); TLC        *)
+(*   evaluates every clause of the requirement on the final state and       *)
+(*   prints the verdict {tid, failed clauses} -- this run decides           *)
+(*   violations.                                                            *)
 EXTENDS MCPropagate, IOUtils, TLCExt
 
 CONSTANT Strict
@@ -46,20 +47,20 @@ Res(e) == Result(e.raised, e.times, e.pa, e.pb)
 TraceWrap ==
     /\ IsEvent("wrap")
     /\ IF Strict THEN Wrap
-       ELSE stage = "request" /\ stage' = "wrapped" /\ UNCHANGED <<cfg, gridIn, iret, out>>
+       ELSE stage # "done" /\ stage' = "wrapped" /\ UNCHANGED <<cfg, gridIn, iret, out>>
     /\ wsign' = [a |-> Ev[l].wa, b |-> Ev[l].wb]
     /\ sysfwd' = Ev[l].sf
 
 TraceCall ==
     /\ IsEvent("call")
     /\ IF Strict THEN Call /\ stage' = "called"
-       ELSE stage = "wrapped" /\ stage' = "called" /\ UNCHANGED <<cfg, wsign, sysfwd, iret, out>>
+       ELSE stage # "done" /\ stage' = "called" /\ UNCHANGED <<cfg, wsign, sysfwd, iret, out>>
     /\ gridIn' = Ev[l].grid
 
 TraceIret ==
     /\ IsEvent("iret")
     /\ IF Strict THEN Integrate
-       ELSE stage = "called" /\ stage' = "iret" /\ UNCHANGED <<cfg, wsign, sysfwd, gridIn, out>>
+       ELSE stage # "done" /\ stage' = "iret" /\ UNCHANGED <<cfg, wsign, sysfwd, gridIn, out>>
     /\ iret' = Res(Ev[l])
 
 TraceOut ==
